@@ -45,8 +45,48 @@ def run_model(ctx, args, text, timeout=1800):
     return p.stdout.decode("utf-8", "replace").splitlines()
 
 
-def run_impl(exe, seqs, timeout=1800):
-    return run_batch([exe], seqs, timeout=timeout, env=dict(os.environ, ASAN_OPTIONS="detect_leaks=0"))
+def run_impl(exe, seqs, timeout=1800, max_crashes=6):
+    """seqrun.run_batch with a bound on restarts: each op line yields one answer line; when the output
+    stops inside a sequence (sanitizer abort, fatal, op timeout) that sequence gets the crash text and
+    the rest is re-run in a fresh process -- at most `max_crashes` times (every hang costs the harness'
+    op timeout); sequences not reached are returned as (None, "skipped")"""
+    env = dict(os.environ, ASAN_OPTIONS="detect_leaks=0")
+    results = []
+    start = 0
+    crashes = 0
+    while start < len(seqs):
+        if crashes >= max_crashes:
+            results += [(None, "skipped")] * (len(seqs) - start)
+            break
+        chunk = seqs[start:]
+        text = "".join(l + "\n" for s in chunk for l in s)
+        try:
+            p = subprocess.run([exe], input=text.encode(), stdout=subprocess.PIPE, stderr=subprocess.PIPE,
+                               timeout=timeout, env=env)
+            rc, out, err = p.returncode, p.stdout, p.stderr
+        except subprocess.TimeoutExpired as e:
+            rc, out, err = -999, e.stdout or b"", b"TIMEOUT (whole batch)"
+        lines = out.decode("utf-8", "replace").split("\n")
+        if lines and lines[-1] == "":
+            lines.pop()
+        pos = 0
+        complete = True
+        for s in chunk:
+            if pos + len(s) <= len(lines):
+                results.append((lines[pos:pos + len(s)], None))
+                pos += len(s)
+            else:
+                results.append((lines[pos:], "rc=%s %s" % (rc, err.decode("utf-8", "replace")[-1500:])))
+                crashes += 1
+                complete = False
+                break
+        start = len(results)
+        if complete:
+            if rc != 0 and results:
+                a, _ = results[-1]
+                results[-1] = (a, "rc=%s %s" % (rc, err.decode("utf-8", "replace")[-1500:]))
+            break
+    return results
 
 
 def harness_meta(exe):
@@ -265,10 +305,22 @@ class Case:
                 "ops": self.ops, "tags": sorted(self.tags)}
 
 
-def build_ops(rng, case, abandon=False):
-    """interleave the feeds of all streams of all hosts; eof + drain per stream; flush per host"""
+def build_ops(rng, case, abandon=False, run_form=False):
+    """interleave the feeds of all streams of all hosts; eof + drain per stream; flush per host.
+    run_form: every stream as ONE `run` op (what the model's runStream -- the function the theorems are
+    about -- computes), streams one after the other"""
     ops = ["begin %d %d %d %s" % (case.labels, case.optK, len(case.targets),
                                   " ".join(hexs(t) for t in case.targets))]
+    if run_form and not abandon:
+        keys = list(case.streams)
+        rng.shuffle(keys)
+        for (i, s) in keys:
+            ops.append("run %d %s %s" % (i, s, " ".join(hexs(c) for c in case.streams[(i, s)])))
+        for i in sorted(set(k[0] for k in keys)):
+            ops.append("flush %d" % i)
+        case.ops = ops
+        case.tags.add("run-form")
+        return case
     pending = {k: list(v) for k, v in case.streams.items()}
     live = [k for k in pending]
     done_hosts = set()
@@ -317,7 +369,7 @@ def gen_case(rng, size_class, chunk_style=None, spoil_kind=None, allow_beyond=Fa
         c.streams[key] = chunkings(rng, payload, style)
         c.tags |= tags
         c.tags.add("chunk:" + style)
-    return build_ops(rng, c, abandon=(spoil_kind == "abandon"))
+    return build_ops(rng, c, abandon=(spoil_kind == "abandon"), run_form=rng.random() < 0.25)
 
 
 def in_domain(case, key):
@@ -347,6 +399,8 @@ def parse_answer(a):
         return None
     head, _, tail = a.partition(" |")
     h = head.split()
+    if len(h) == 2 and h[0] == "run":
+        h = ["0", "0", h[1] if h[1] != "-" else "0"]
     if len(h) != 3:
         return None
     ems = []
@@ -434,6 +488,9 @@ def evaluate(ctx, prop, cases, impl, cov, dist, flavour, engines=("index", "fifo
     all_spec, spec_index = [], []
     collected = []
     for ci, (c, (ans, crash)) in enumerate(zip(cases, impl)):
+        if ans is None:
+            collected.append(({}, []))
+            continue
         per, stray = collect(c, ans)
         collected.append((per, stray))
         if crash is None and c.complete:
@@ -448,6 +505,10 @@ def evaluate(ctx, prop, cases, impl, cov, dist, flavour, engines=("index", "fifo
     pos = 0
     for ci, (c, (ans, crash)) in enumerate(zip(cases, impl)):
         n = len(c.ops)
+        if ans is None:
+            dist["skipped_after_crashes"] = dist.get("skipped_after_crashes", 0) + 1
+            pos += n
+            continue
         cov["evaluations"] += 1
         dist["ops"] = dist.get("ops", 0) + n
         for tg in c.tags:
@@ -455,8 +516,11 @@ def evaluate(ctx, prop, cases, impl, cov, dist, flavour, engines=("index", "fifo
         per, stray = collected[ci]
         if crash is not None:
             dist["crash"] = dist.get("crash", 0) + 1
-            ctx.offender("crash", "relay code of dsh.c aborts (assertion/sanitizer/fatal/timeout) [%s] at op %d: %s"
-                         % (flavour, len(ans), crash[-500:]), dict(c.to_json(), flavour=flavour, impl=ans[-3:]))
+            ctx.offender("timeout" if "TIMEOUT" in crash else "crash",
+                         "relay code of dsh.c %s [%s] at op %d `%s`: %s"
+                         % ("does not return" if "TIMEOUT" in crash else "aborts (assertion/sanitizer/fatal)", flavour,
+                            len(ans), c.ops[len(ans)][:80] if len(ans) < n else "?", crash[-500:]),
+                         dict(c.to_json(), flavour=flavour, impl=ans[-3:]))
             pos += n
             continue
         # ---- correspondence: implementation vs both models, call by call
